@@ -41,7 +41,7 @@ func c15Dispatch(args []string) string {
 			return "!badcase"
 		}
 		return c15RunPeers(args[1], args[2], args[3])
-	case "conn":
+	case "conn", "conn0":
 		if len(args) != 3 {
 			return "!badcase"
 		}
@@ -142,7 +142,7 @@ type c15Scenario struct {
 // watchdog expires (then those threads are reported as blocked).
 func (sc *c15Scenario) settle() {
 	deadline := time.Now().Add(sc.wait)
-	for {
+	for spin := 0; ; spin++ {
 		all := true
 		if sc.col != nil && !sc.colGat && !sc.col.finished() {
 			all = false
@@ -157,7 +157,14 @@ func (sc *c15Scenario) settle() {
 				all = false
 			}
 		}
-		if all || time.Now().After(deadline) {
+		if all {
+			return
+		}
+		if spin < 2000 {
+			runtime.Gosched()
+			continue
+		}
+		if time.Now().After(deadline) {
 			return
 		}
 		time.Sleep(200 * time.Microsecond)
@@ -268,7 +275,7 @@ func c15RunPeers(maxS, waitS, script string) string {
 				// wait until Catch has been entered or the call returned without it
 				deadline := time.Now().Add(sc.wait)
 			waitEnter:
-				for {
+				for spin := 0; ; spin++ {
 					select {
 					case <-t.entered:
 						sc.colGat = true
@@ -276,6 +283,10 @@ func c15RunPeers(maxS, waitS, script string) string {
 					case <-sc.col.done:
 						break waitEnter
 					default:
+						if spin < 2000 {
+							runtime.Gosched()
+							continue
+						}
 						if time.Now().After(deadline) {
 							break waitEnter
 						}
